@@ -133,29 +133,32 @@ def write_order(ctx, f, cfg):
         return
     b = ws[0]
     sl = Slicer(f, b)
-    idx = [bb for bb, t in b.calls() if callee_def(t).endswith("write_index")]
-    items = [bb for bb, t in b.calls() if callee_def(t).endswith("write_items_and_flush")]
+    idx = call_or_inlined(b, "write_index")
+    items = call_or_inlined(b, "write_items_and_flush")
     ok = len(idx) == 1 and len(items) == 1
     detail = {"write_index_sites": len(idx), "write_items_sites": len(items)}
     if ok:
         # index before items on every path that writes an index; never items -> index
         detail["index_then_items"] = items[0] in b.reachable(b.succs(idx[0])) and idx[0] not in b.reachable(b.succs(items[0]))
         # an Err from write_index returns before the lines are written
-        t = b.term(idx[0])
-        detail["index_error_propagated"] = any(callee_is(t2, "Try::branch") and op_place(t2["args"][0]) and op_place(t2["args"][0])["l"] == t["dest"]["l"] for _, t2 in b.calls())
+        iargs = site_args(b, idx[0])
+        idest = site_dest(b, idx[0])
+        # the lines are written only on the success edge of the index write (`?`, match, if-let, is_ok alike)
+        detail["index_error_propagated"] = ok_edge_dominates(f, b, items[0], "call:write_index", sl=sl) or \
+            any(callee_is(t2, "Try::branch") and op_place(t2["args"][0]) and op_place(t2["args"][0])["l"] == idest for _, t2 in b.calls())
         # index written only for a newer second
         guarded = False
         for d in b.dominators()[idx[0]]:
             tt = b.term(d)
             if tt and tt["k"] == "switch":
                 a = sl.of_operand(tt["op"])
-                if "op:Gt" in a and any_atom(a, "field:DefaultMetricLogWriter.latest_op_sec") and any_atom(a, "param:ts"):
+                if ("op:Gt" in a or "op:Lt" in a or any_atom(a, "call:Ord::cmp") or any_atom(a, "call:PartialOrd::partial_cmp")) and any_atom(a, "field:DefaultMetricLogWriter.latest_op_sec") and any_atom(a, "param:ts"):
                     guarded = True
         detail["index_only_for_new_second"] = guarded
         # offset = current position of the metric file
-        a = sl.of_operand(t["args"][2])
+        a = sl.of_operand(iargs[2]) if len(iargs) > 2 else set()
         detail["offset_is_file_position"] = any(x.startswith("call:") and x.endswith("::seek") for x in a) and any_atom(a, "field:DefaultMetricLogWriter.cur_metric_file") and any_atom(a, "variant:SeekFrom::Current")
-        a1 = sl.of_operand(t["args"][1])
+        a1 = sl.of_operand(iargs[1]) if len(iargs) > 1 else set()
         detail["second_from_ts"] = any_atom(a1, "param:ts") and "op:Div" in a1
         # latest_op_sec store after the lines
         stores = [bi for bi, blk in enumerate(b.blocks) if not blk["cleanup"] for s in blk["stmts"] if s["k"] == "assign" and any(p.endswith("DefaultMetricLogWriter.latest_op_sec") for p in s["lhs"]["p"])]
@@ -385,12 +388,13 @@ def file_order(ctx, f, cfg):
         ctx.violation("C19.file-order", "C19.file-order|text-compare", "files of one day are ordered by text comparison only (.10 sorts before .2)", b.loc(), config=cfg)
     # everyone who relies on the order sorts with this comparator
     users = 0
-    for name in ("metric::list_metric_files_conditional",):
-        lb = f.one(name)
-        if lb is None:
+    cmp_path = f.raw(b).path
+    for p_, lb in f.bodies.items():
+        if "log::metric" not in p_:
             continue
         for bb, t in lb.calls():
-            if callee_def(t).rsplit("::", 1)[-1] in ("sort_by", "sort_unstable_by") and any(a.get("k") == "const" and "filename_comparator" in (a.get("fn") or a.get("text") or "") for a in t["args"]):
+            if callee_def(t).rsplit("::", 1)[-1] in ("sort_by", "sort_unstable_by") and any(a.get("k") == "const" and (a.get("fn") or a.get("text") or "").endswith(cmp_path.rsplit("::", 1)[-1]) for a in t["args"]) \
+                    and "PathBuf" in (t.get("arg_tys") or [""])[0]:
                 users += 1
     ctx.instance("C19.file-order/users", "list_metric_files_conditional", {"sorted_with_comparator": users}, ">= 1", users >= 1, cfg)
     if users < 1:
@@ -414,7 +418,7 @@ def retention_order(ctx, f, cfg):
         if callee_def(t).rsplit("::", 1)[-1] == "take" and len(t["args"]) == 2:
             at = sl.of_operand(t["args"][1])
             room = ("const:1" in at and any(x in at for x in ("op:Add", "op:AddWithOverflow"))) and any_atom(at, "field:DefaultMetricLogWriter.max_file_amount")
-    prune = [bb for bb, t in cl.calls() if callee_def(t).endswith("remove_deprecated_files")]
+    prune = call_or_inlined(cl, "remove_deprecated_files")
     create = [bb for bb, t in cl.calls() if callee_def(t).endswith(("File::create", "OpenOptions::open"))]
     before = bool(prune) and bool(create) and all(cl.dominates(prune[0], c) for c in create)
     after = bool(prune) and bool(create) and all(any(cl.dominates(c, pb) for c in create) for pb in prune)
@@ -496,10 +500,10 @@ def cache_validation(ctx, f, cfg):
     b = f.one("DefaultMetricSearcher::get_offset_start_and_file_idx")
     if not ctx.floor("C19.cache-validation", "get_offset_start_and_file_idx", 1 if b else 0, 1):
         return
-    sites = [(bb, t) for bb, t in b.calls() if callee_def(t).endswith("is_position_in_time_for")]
+    sites = call_or_inlined(b, "is_position_in_time_for")
     prop = []
-    for bb, t in sites:
-        dest = t["dest"]["l"]
+    for bb in sites:
+        dest = site_dest(b, bb)
         for b2, t2 in b.calls():
             if callee_is(t2, "Try::branch") and op_place(t2["args"][0]) and op_place(t2["args"][0])["l"] == dest:
                 prop.append(b.loc(b2))
@@ -546,9 +550,9 @@ def roll_before_index(ctx, f, cfg):
     if not ws:
         return
     b = ws[0]
-    idx = [bb for bb, t in b.calls() if callee_def(t).endswith("write_index")]
-    items = [bb for bb, t in b.calls() if callee_def(t).endswith("write_items_and_flush")]
-    rolls = [bb for bb, t in b.calls() if callee_def(t).endswith(("roll_to_next_file",))]
+    idx = call_or_inlined(b, "write_index")
+    items = call_or_inlined(b, "write_items_and_flush")
+    rolls = call_or_inlined(b, "roll_to_next_file")
     late = []
     for i in idx:
         # a roll reachable from the index write before the lines are written
